@@ -455,9 +455,10 @@ class LibLab:
                 w = cls(path, readonly=False)
                 with w.writing(timeout=60):
                     ev.append({"ev": "open", "h": "w", "kind": cname, "out": "ok", "keys": sorted(tok(k) for k in w.keys())})
+                    wk = []
                     for k, _ in legacy:
                         if read_in_writer and rnd.random() < 0.3:
-                            ev.append(self._get("w", w, k))
+                            self._get_edit_get("w", w, k, ev, rnd, wk)
                     for k, o in items:
                         x = abstract(o)
                         try:
@@ -470,6 +471,11 @@ class LibLab:
                         self.calls += 1
                         ev.append({"ev": "put", "k": tok(k), "x": x, "out": out})
                         if read_in_writer and out == "ok" and rnd.random() < 0.5:
+                            self._get_edit_get("w", w, k, ev, rnd, wk)
+                if wk:
+                    # a later session of the SAME library object: the objects it handed out were edited meanwhile
+                    with w.reading(timeout=60):
+                        for k in wk:
                             ev.append(self._get("w", w, k))
             except Watchdog:
                 raise
@@ -481,8 +487,13 @@ class LibLab:
                     ev.append({"ev": "open", "h": "r", "kind": cname, "out": "ok", "keys": sorted(tok(k) for k in r.keys())})
                     ks = [k for k, _ in legacy] + [k for k, _ in items]
                     rnd.shuffle(ks)
+                    rk = []
                     for k in ks:
                         if k in r.keys():
+                            self._get_edit_get("r", r, k, ev, rnd, rk)
+                if rk:
+                    with r.reading(timeout=60):
+                        for k in rk:
                             ev.append(self._get("r", r, k))
             except Watchdog:
                 raise
@@ -505,13 +516,50 @@ class LibLab:
 
     def _get(self, h, lib, k):
         self.calls += 1
+        self.hand = None
         try:
             o = lib[k]
         except Watchdog:
             raise
         except Exception as e:
             return {"ev": "get", "h": h, "k": tok(k), "out": exc_name(e), "err": str(e)[:160]}
+        self.hand = o
         return {"ev": "get", "h": h, "k": tok(k), "out": "ok", "x": abstract(o)}
+
+    def _get_edit_get(self, h, lib, k, ev, rnd, edited):
+        """lib[k]; sometimes the caller then edits the returned object in place (event `scribble`) and reads k again,
+        at once and / or in a later session of the same library object (keys collected in `edited`)."""
+        e = self._get(h, lib, k)
+        ev.append(e)
+        if e["out"] != "ok" or rnd.random() >= 0.4:
+            return
+        scribble(self.hand)
+        ev.append({"ev": "scribble", "h": h, "k": tok(k)})
+        edited.append(k)
+        if rnd.random() < 0.6:
+            ev.append(self._get(h, lib, k))
+
+
+def scribble(o):
+    """What a caller may do with an object it got from a library: it is the caller's copy."""
+    from molli.chem import Element, AtomType, BondType
+    edits = [lambda: setattr(o, "name", "scribbled"), lambda: setattr(o, "charge", (o.charge or 0) + 7),
+             lambda: setattr(o, "mult", 9), lambda: o.attrib.__setitem__("_scribbled", [1, 2.5]),
+             lambda: o.coords.__setitem__(Ellipsis, 777.25), lambda: o.atomic_charges.__setitem__(Ellipsis, -7.5)]
+    if hasattr(o, "weights"):
+        edits.append(lambda: o.weights.__setitem__(Ellipsis, 0.125))
+    for a in o.atoms:
+        edits += [lambda a=a: setattr(a, "label", "scribbled"), lambda a=a: setattr(a, "element", Element(9)),
+                  lambda a=a: setattr(a, "atype", AtomType.Dummy), lambda a=a: setattr(a, "formal_charge", 3),
+                  lambda a=a: a.attrib.__setitem__("_scribbled", True)]
+    for b in o.bonds:
+        edits += [lambda b=b: setattr(b, "btype", BondType.Triple), lambda b=b: setattr(b, "f_order", 2.75),
+                  lambda b=b: setattr(b, "label", "scribbled")]
+    for f in edits:
+        try:
+            f()
+        except Exception:
+            pass
 
 
 # ----------------------------------------------------------------------------- diagnostics (messages only)
